@@ -141,12 +141,20 @@ impl World {
         }
     }
 
-    pub fn tr_struct(&mut self, f: &File, name: &str) -> R<String> {
+    pub fn tr_struct(&mut self, f: &File, name: &str, opts: &BTreeMap<String, String>) -> R<String> {
         for it in &f.items {
             if let Item::Struct(s) = it {
                 if s.ident == name {
                     let mut fields = vec![];
-                    let g = BTreeMap::new();
+                    // type parameters are instantiated from the target line (`B=Block`)
+                    let mut g = BTreeMap::new();
+                    for gp in &s.generics.params {
+                        if let GenericParam::Type(tp) = gp {
+                            if let Some(inst) = opts.get(&tp.ident.to_string()) {
+                                g.insert(tp.ident.to_string(), Ty::Named(inst.clone()));
+                            }
+                        }
+                    }
                     for fl in s.fields.iter() {
                         let n = fl.ident.as_ref().ok_or("tuple struct")?.to_string();
                         fields.push((n, self.ty_of(&fl.ty, &g)?));
@@ -262,6 +270,10 @@ pub struct Ctx<'w> {
     fresh: usize,
     /// innermost `let x = match ..` being translated: the type of the arms' value so far
     val_mode: Vec<Option<Ty>>,
+    /// variables bound `mut` inside the pattern being translated: re-declared `let mut` at the arm's head
+    mut_pat_binds: Vec<String>,
+    /// enclosing loops, innermost last: the "finished regularly" flag of a fuel-bounded `while`
+    loop_fin: Vec<Option<String>>,
 }
 
 struct E {
